@@ -43,7 +43,7 @@ CLAIMS = {
             "Props/C11.lean"),
 }
 
-READY = ["C01", "C02"]   # properties whose Props file holds real theorems
+READY = ["C01", "C02", "C03"]   # properties whose Props file holds real theorems
 CLAIMS = {k: v for k, v in CLAIMS.items() if k in READY}
 
 checks = []
